@@ -1,1 +1,19 @@
-fn main() { println!("vh"); }
+//! vh — verification harness for rustic_core (drivers emit ndjson for TLC, or replay TLC behaviours)
+mod drivers;
+mod util;
+
+fn main() {
+    let argv: Vec<String> = std::env::args().collect();
+    if argv.len() < 2 {
+        eprintln!("usage: vh <driver> [--key value]...");
+        std::process::exit(2);
+    }
+    let a = util::Args::parse(&argv[2..]);
+    match argv[1].as_str() {
+        "forget" => drivers::forget::run(&a),
+        d => {
+            eprintln!("unknown driver {d}");
+            std::process::exit(2);
+        }
+    }
+}
